@@ -185,19 +185,25 @@ class Emit:
             body = self.block(then, env, depth, owner) if then is not None else []
             els = self.block(els_e, env, depth, owner) if els_e is not None else []
             return [("if", label(c, env), body, els)]
-        if k == "Match" and "ForLoop" in x.get("source", ""):
-            # for pat in iter { body }
-            it = strip(x["scrut"])
-            src = it["args"][0] if it["k"] == "Call" and it["args"] else it
+        for_each = k == "MethodCall" and x["method"] == "for_each" and len(x["args"]) == 1 and strip(x["args"][0])["k"] == "Closure"
+        if (k == "Match" and "ForLoop" in x.get("source", "")) or for_each:
+            # for pat in iter { body }      /      iter.for_each(|pat| body)
+            if for_each:
+                src = x["recv"]
+                cl_ = strip(x["args"][0])
+                inner = {"pat": {"k": "TupleStruct", "pats": cl_.get("params", [])}, "body": cl_["body"]}
+            else:
+                it = strip(x["scrut"])
+                src = it["args"][0] if it["k"] == "Call" and it["args"] else it
+                lp = x["arms"][0]["body"]
+                inner = None
+                for n in hir.walk(lp):
+                    if n.get("k") == "Match" and n is not x:
+                        for a in n["arms"]:
+                            if hir.pat_variants(a["pat"]) == {"Some"}:
+                                inner = a
+                        break
             src_l = label(src, env)
-            lp = x["arms"][0]["body"]
-            inner = None
-            for n in hir.walk(lp):
-                if n.get("k") == "Match" and n is not x:
-                    for a in n["arms"]:
-                        if hir.pat_variants(a["pat"]) == {"Some"}:
-                            inner = a
-                    break
             if inner is None:
                 raise Unrecognised("for loop shape", x)
             env = dict(env)
@@ -253,6 +259,8 @@ class Emit:
                 return [("joinlest", items, label(args[2], env))]
             if nm == "join_to" and self.is_sink(args[0], env):
                 return [("join", label(args[1], env), [label(args[2], env)], "item")]
+            if nm == "post_process_whitespace":
+                return [("post_process_whitespace", label(args[0], env))]      # its own shape is F-POST's business (C16)
             if nm == "add_space_if_necessary_and_flush_buffer" and self.is_sink(args[0], env):
                 return [("flush", label(args[1], env), label(args[2], env))]
             # call of a local function that receives the sink (or a buffer): inline
@@ -376,6 +384,10 @@ def rule_F_SKELETON_ALL(ctx, floor=10, which=("enum", "lexical", "template")):
         if r is None:
             # a function added next to the reviewed ones is not evidence against the property (control: a new unrelated API); it is listed
             ctx.extra.setdefault("unreviewed_new_functions", []).append(name)
+            continue
+        if r["skeleton"] and isinstance(r["skeleton"][0], list) and r["skeleton"][0][:1] == ["unrecognised"]:
+            # nothing was reviewed for this function (its emission could not be evaluated symbolically when the table was made): no reference
+            ctx.extra.setdefault("functions_without_reviewed_skeleton", []).append(name)
             continue
         d = _diff(r["skeleton"], sk)
         ctx.ob("F-SKELETON-ALL", name, d is None, d or "", site)
